@@ -339,7 +339,10 @@ func famMeta(sh *Shards, n int, stats map[string]int) error {
 		// finite and ordered, but the extent max - min is not a finite float32
 		{[4]float32{-3e38, -1, 3e38, 1}}, {[4]float32{0, -3.4e38, 1, 3.4e38}},
 		{[4]float32{-math.MaxFloat32, -math.MaxFloat32, math.MaxFloat32, math.MaxFloat32}},
-		{[4]float32{3e38, -3e38, 3.4e38, -2e38}}, {[4]float32{-1e-45, -1e-45, 1e-45, 1e-45}}}
+		{[4]float32{3e38, -3e38, 3.4e38, -2e38}}, {[4]float32{-1e-45, -1e-45, 1e-45, 1e-45}},
+		// signalling NaNs (quiet bit clear), either sign, in each position
+		{[4]float32{fbits(0x7f800004), 0, 1, 1}}, {[4]float32{0, fbits(0x7fa00000), 1, 1}},
+		{[4]float32{0, 0, fbits(0xff800004), 1}}, {[4]float32{0, 0, 1, fbits(0xffbffffc)}}}
 	vbChunk := func(v [4]float32, ws [4]int, lenDelta int, lenWidth int) []byte {
 		body := []byte{0x00}
 		for i := 0; i < 4; i++ {
@@ -464,6 +467,20 @@ func famMeta(sh *Shards, n int, stats map[string]int) error {
 	emit("meta/pal-mid4", stream(1, 1, [][]byte{palChunk(3, 2, colorGen(3, 0), 0, 4)}, tails[1]))
 	emit("meta/out-of-order", stream(2, 1, [][]byte{pal0, vb0}, tails[1])) // loose: accepted either way
 	emit("meta/repeated", stream(2, 1, [][]byte{vb0, vb0}, tails[1]))      // loose
+	// repeated chunks of which one is invalid by itself: rejected under every reading
+	vbBad := vbChunk([4]float32{5, 0, 1, 1}, [4]int{1, 1, 1, 1}, 0, 1)
+	vbNaN := vbChunk([4]float32{0, 0, nan, 1}, [4]int{1, 1, 4, 1}, 0, 1)
+	emit("meta/repeated/bad-then-good", stream(2, 1, [][]byte{vbBad, vb0}, tails[1]))
+	emit("meta/repeated/nan-then-good", stream(2, 1, [][]byte{vbNaN, vb0}, tails[1]))
+	emit("meta/repeated/good-then-bad", stream(2, 1, [][]byte{vb0, vbBad}, tails[1]))
+	emit("meta/repeated/bad-pal-good", stream(3, 1, [][]byte{vbBad, pal0, vb0}, tails[1]))
+	emit("meta/repeated/pal-short-then-pal", stream(2, 1, [][]byte{palChunk(3, 3, colorGen(3, 0), -1, 1), pal0}, tails[1]))
+	// the largest palette chunk (64 entries of 4 bytes) with the MID in each width, alone and after a viewBox
+	for _, mw := range []int{1, 2, 4} {
+		big := palChunk(3, 64, colorGen(3, 0), 0, mw)
+		emit(fmt.Sprintf("meta/pal3/64/mid%d", mw), stream(1, 1, [][]byte{big}, tails[1]))
+		emit(fmt.Sprintf("meta/two/pal3/64/mid%d", mw), stream(2, 1, [][]byte{vb0, big}, tails[0]))
+	}
 	for _, mid := range []uint32{2, 3, 63, 64, 1000, 1 << 20} {
 		w := 1
 		if mid >= 128 {
@@ -501,6 +518,19 @@ func famMeta(sh *Shards, n int, stats map[string]int) error {
 }
 
 func famAdversarial(sh *Shards, n int, stats map[string]int) error {
+	// the magic identifier somewhere else than at the start: a whole graphic after a prefix, the magic inside an operand
+	if gs, err := loadCorpus(); err == nil {
+		for gi, pre := range [][]byte{{0x00}, {0x89}, {0x89, 'I', 'V'}, {'x', 'y', 'z', 'w'}, {0x89, 'I', 'V', 'G' + 1, 0x00}, {0xff, 0xfe, 0xfd, 0xfc, 0xfb, 0xfa, 0xf9}} {
+			g := gs[gi%len(gs)]
+			b := append(append([]byte{}, pre...), g.Data...)
+			nc, acc := traceDecode(sh.Next(), fmt.Sprintf("adv/shifted-magic/%d", gi), b, allFlags)
+			count(stats, "adversarial", nc, acc)
+		}
+		// first four bytes damaged, a 4-byte colour operand later spells the magic
+		b := []byte{0x88, 'I', 'V', 'G', 0x00, 0x98, 0x89, 'I', 'V', 'G', 0xc0, 0x80, 0x80, 0xe1}
+		nc, acc := traceDecode(sh.Next(), "adv/magic-in-operand", b, allFlags)
+		count(stats, "adversarial", nc, acc)
+	}
 	emit := func(id string, b []byte) {
 		fl := allFlags
 		fl.cuts = len(b) < 80
